@@ -6872,6 +6872,14 @@ impl<'a, 'graph> Builder<'a, 'graph> {
               }
             });
           if dep.is_dynamic && !self.in_dynamic_branch {
+            // only the first importer's range is kept with the parked
+            // branch, so book this importer's package dependency now
+            if matches!(specifier.scheme(), "jsr" | "npm")
+              && let Ok(load_specifier) =
+                self.parse_load_specifier_kind(specifier, Some(range))
+            {
+              self.maybe_mark_dep(&load_specifier, Some(range));
+            }
             let value = self
               .state
               .dynamic_branches
@@ -6917,6 +6925,12 @@ impl<'a, 'graph> Builder<'a, 'graph> {
               }
             });
           if dep.is_dynamic && !self.in_dynamic_branch {
+            if matches!(specifier.scheme(), "jsr" | "npm")
+              && let Ok(load_specifier) =
+                self.parse_load_specifier_kind(specifier, Some(range))
+            {
+              self.maybe_mark_dep(&load_specifier, Some(range));
+            }
             self.state.dynamic_branches.insert(
               specifier.clone(),
               PendingDynamicBranch {
